@@ -92,10 +92,11 @@ def reduce_prog(p, fails, max_tests=600):
     tests = [0]
 
     def bodies(prog):
-        out = [prog.units]
+        out = [(prog.units, False)]
 
         def rec(b):
-            out.append(b.body)
+            # a non-block DO ends on its last body element: that one must stay
+            out.append((b.body, b.cons == "nonblockdo"))
             for y in b.body:
                 if isinstance(y, Blk):
                     rec(y)
@@ -106,11 +107,11 @@ def reduce_prog(p, fails, max_tests=600):
     changed = True
     while changed and tests[0] < max_tests:
         changed = False
-        for body in bodies(p):
+        for body, keep_last in bodies(p):
             i = 0
             while i < len(body) and tests[0] < max_tests:
                 x = body[i]
-                if isinstance(x, St) and x.role == "mid":
+                if (isinstance(x, St) and x.role == "mid") or (keep_last and i == len(body) - 1):
                     i += 1
                     continue
                 if body is p.units and len(body) == 1:
